@@ -3,6 +3,6 @@ ROOT=$(cd "$(dirname "$0")/.." && pwd); cd "$ROOT"
 # benign_parallel.sh [jobs] : every check against every benign variant, [jobs] variants at a time, at 60% of the
 # quick budget (what tools/regress.sh does in its second step).  Everything must exit 0.
 jobs=${1:-3}; mkdir -p .tmp
-ls benign/*.patch | xargs -P "$jobs" -I{} bash -c 'for prop in C14 C19 C13 C11; do VERIF_SCALE=0.6 SKIP_TESTS=1 tools/try_mutant.sh {} $prop 2>&1 | tail -1 | cut -c1-160; done' | tee .tmp/benign-parallel.log
-n=$(grep -c "rc=0" .tmp/benign-parallel.log); t=$(( $(ls benign/*.patch | wc -l) * 4 ))
+ls benign/*.patch | xargs -P "$jobs" -I{} bash -c 'for prop in ${PROPS:-C14 C19 C13 C11}; do VERIF_SCALE=0.6 SKIP_TESTS=1 tools/try_mutant.sh {} $prop 2>&1 | tail -1 | cut -c1-160; done' | tee .tmp/benign-parallel.log
+n=$(grep -c "rc=0" .tmp/benign-parallel.log); t=$(( $(ls benign/*.patch | wc -l) * $(echo ${PROPS:-C14 C19 C13 C11} | wc -w) ))
 echo "BENIGN: $n of $t runs exit 0"; [ "$n" = "$t" ]
